@@ -290,15 +290,26 @@ def strat_extractor():
     @st.composite
     def case(draw):
         base = draw(strat_assign())
+        scenario = draw(st.sampled_from(["free", "free", "overlapping_given_regions"]))
+        if scenario == "overlapping_given_regions" and base["regions"]:
+            # two given regions that overlap (the second is the first one shifted) and a line running through both
+            r0 = base["regions"][0]
+            dx, dy = draw(st.integers(5, 40)), draw(st.integers(0, 10))
+            r1 = dict(r0, poly=[(x + dx, y + dy) for x, y in r0["poly"]])
+            base = dict(base, regions=[r0, r1] + base["regions"][1:3])
+            xs = [p[0] for p in r0["poly"]]; ys = [p[1] for p in r0["poly"]]
+            ymid = (min(ys) + max(ys)) / 2.0
+            base["lines"] = [dict(mode="span", baseline=[(min(xs) - 20.0, ymid), (max(xs) + 60.0, ymid)], heights=(10.0, 4.0))] + base["lines"][:4]
         per_rot = {}
         for rot in (0, 1, 3):
             if rot == 0 or draw(st.booleans()):
                 per_rot[rot] = list(range(len(base["lines"])))
             else:
                 per_rot[rot] = [i for i in range(len(base["lines"])) if draw(st.booleans())]
-        return dict(base=base, per_rot=per_rot, detect_regions=draw(st.booleans()), detect_lines=draw(st.booleans()),
-                    merge_lines=draw(st.booleans()), multi=draw(st.booleans()), simple=draw(st.integers(0, 4)) == 0,
-                    lib_ids=draw(st.booleans()))
+        forced = scenario == "overlapping_given_regions"
+        return dict(base=base, per_rot=per_rot, detect_regions=draw(st.booleans()) and not forced, detect_lines=draw(st.booleans()) or forced,
+                    merge_lines=draw(st.booleans()) and not forced, multi=draw(st.booleans()) or forced,
+                    simple=draw(st.integers(0, 4)) == 0 and not forced, lib_ids=draw(st.booleans()) or forced)
     return case()
 
 
